@@ -157,6 +157,10 @@ type SimWriter struct {
 	// FailRate is the chance (out of 16) that a Write fails.
 	FailRate int
 
+	// ShortNil (out of 16) makes the writer break the io.Writer contract by
+	// reporting a short count with a nil error now and then.
+	ShortNil int
+
 	Calls []WriteCall
 
 	// OnWrite, if set, is called at the start of every Write.
@@ -181,6 +185,10 @@ func (w *SimWriter) Write(p []byte) (n int, err error) {
 		default:
 			w.Stats.Fault("write-error-full-count")
 		}
+	}
+	if err == nil && w.ShortNil > 0 && len(p) > 0 && w.Tape.Bool(w.ShortNil, 16) {
+		n = w.Tape.Choose(len(p))
+		w.Stats.Fault("write-short-nil-error")
 	}
 	w.Calls = append(w.Calls, WriteCall{Data: append([]byte(nil), p...), N: n, Err: err})
 
